@@ -20,6 +20,7 @@ type Env struct {
 	pkgPath string
 	imports map[string]string
 	loop    *loopInfo
+	depth   int
 }
 
 func (env *Env) with(st *State) *Env {
@@ -91,6 +92,8 @@ func (e *Enc) resolveTypeExpr(te *TypeExpr, pkgPath string, imports map[string]s
 			return "Int", nil, nil
 		case "bool":
 			return "Bool", nil, nil
+		case "bytes":
+			return "Bytes", nil, nil
 		}
 		o, err := e.P.resolveNamed(te.Name, pkgPath, imports)
 		if err != nil {
@@ -762,6 +765,20 @@ func (env *Env) evalCall(x *ECall) (*Val, error) {
 				}
 			}
 			return nil, fmt.Errorf("len of %s not supported", exprString(x.Args[0]))
+		case "base", "off":
+			if _, shadow := env.vars[id.Name]; !shadow && len(x.Args) == 1 {
+				v, err := env.eval(x.Args[0])
+				if err != nil {
+					return nil, err
+				}
+				if v.T == nil || len(v.L) != 4 {
+					return nil, fmt.Errorf("%s() needs a slice", id.Name)
+				}
+				if id.Name == "base" {
+					return mathVal(v.L[0].T, "Int"), nil
+				}
+				return mathVal(v.L[1].T, "Int"), nil
+			}
 		case "min", "max":
 			if len(x.Args) != 2 {
 				return nil, fmt.Errorf("%s takes two arguments", id.Name)
@@ -834,6 +851,17 @@ func (env *Env) evalCall(x *ECall) (*Val, error) {
 				return nil, fmt.Errorf("typeof needs an interface value")
 			}
 			return mathVal(v.L[0].T, "Int"), nil
+		case "bytes":
+			// abstraction of the content of a []byte value in the current state
+			if len(x.Args) == 1 {
+				if _, shadow := env.vars["bytes"]; !shadow {
+					v, err := env.eval(x.Args[0])
+					if err != nil {
+						return nil, err
+					}
+					return e.bytesOf(env.st, v)
+				}
+			}
 		case "zero":
 			if len(x.Args) == 1 {
 				if tl, ok := x.Args[0].(*ETypeLit); ok {
@@ -925,6 +953,20 @@ func (env *Env) evalCall(x *ECall) (*Val, error) {
 		if !ok {
 			return nil, fmt.Errorf("no method %s on %s", sel.Name, typeStr(recv.T))
 		}
+		// interface receiver with a known dynamic type: the concrete method's (pure) contract is used when it has one
+		if _, isIface := recv.T.Underlying().(*types.Interface); isIface && len(recv.L) == 2 {
+			if n, ok := isConstTerm(recv.L[0].T); ok && n.Sign() > 0 {
+				if ct := e.TI.tagTyp[int(n.Int64())]; ct != nil {
+					if fn := e.P.SSA.LookupMethod(ct, f.Pkg(), f.Name()); fn != nil {
+						if cf, ok := fn.Object().(*types.Func); ok {
+							if cc0, ok := e.DB.Contracts[cf.FullName()]; ok && cc0.Pure {
+								return env.callPureGo(cf, e.unboxAs(env.st, recv.L[1].T, ct), x.Args)
+							}
+						}
+					}
+				}
+			}
+		}
 		return env.callPureGo(f, recv, x.Args)
 	}
 	return nil, fmt.Errorf("cannot call %s", exprString(x.Fun))
@@ -952,7 +994,18 @@ func (env *Env) callPureGo(f *types.Func, recv *Val, args []Expr) (*Val, error) 
 	default:
 		rt = sig.Results()
 	}
-	return e.pureApp(c, vals, rt, env.st), nil
+	res := e.pureApp(c, vals, rt, env.st)
+	// the facts the contract states about the function's value hold wherever it is applied
+	if len(c.Ensures) > 0 && env.depth < 3 {
+		env2 := &Env{e: e, vars: e.bindParams(c, vals, c.Sig), st: env.st, old: env.st, pkgPath: c.PkgPath, imports: c.Imports, depth: env.depth + 1}
+		env2.bindResults(c, res, rt)
+		for _, en := range c.Ensures {
+			if g, err := env2.evalBool(en.E); err == nil && !strings.Contains(g, "|q!") {
+				e.assert(g)
+			}
+		}
+	}
+	return res, nil
 }
 
 // callGhost applies a ghost function (defined or uninterpreted).
@@ -1248,4 +1301,22 @@ func storePath(e *Enc, cur, sort string, idxs []string) (string, error) {
 		return "", err
 	}
 	return "(store " + cur + " " + idxs[0] + " " + inner + ")", nil
+}
+
+// bytesOf: abstract byte string held by a []byte slice value in state st.
+func (e *Enc) bytesOf(st *State, v *Val) (*Val, error) {
+	if v.T == nil || len(v.L) != 4 {
+		return nil, fmt.Errorf("bytes() needs a []byte value")
+	}
+	sl, ok := v.T.Underlying().(*types.Slice)
+	if !ok {
+		return nil, fmt.Errorf("bytes() needs a []byte value")
+	}
+	if b, ok := sl.Elem().Underlying().(*types.Basic); !ok || b.Kind() != types.Uint8 {
+		return nil, fmt.Errorf("bytes() needs a []byte value")
+	}
+	e.declSort("Bytes")
+	f := e.declFun("bseq", []string{"(Array Int Int)", "Int", "Int"}, "Bytes")
+	h := e.heapGet(st, "S|"+typeStr(sl.Elem())+"|", "(Array Int (Array Int Int))")
+	return &Val{L: []Sc{{"(" + f + " (select " + h + " " + v.L[0].T + ") " + v.L[1].T + " " + v.L[2].T + ")", "Bytes"}}}, nil
 }
